@@ -8,11 +8,12 @@
 (* differs from the set model is reported with its position and the expected answer (PrintT "MISMATCH") and the   *)
 (* trace continues, so that one TLC run lists every deviating answer of a long history.                           *)
 EXTENDS TupleSetAbs, TLC, TraceDataModule   \* TraceDataModule (generated) defines TraceData
-CONSTANT Tolerant   \* TRUE only for histories without overlapping calls (there RetPossible is exact): an inexplicable insert
-                    \* result is reported like a deviating query answer and the trace continues with the tuple inserted
-VARIABLE l
-tvars == <<S, pend, l>>
-TInit == AInit /\ l = 1
+\* tol: set by "reset" ([e |-> "reset", tol |-> BOOLEAN]); TRUE only for histories without overlapping calls (there
+\* RetPossible is exact): an inexplicable insert result is reported like a deviating query answer and the trace continues
+\* with the tuple inserted
+VARIABLES l, tol
+tvars == <<S, pend, l, tol>>
+TInit == AInit /\ l = 1 /\ tol = FALSE
 Ev == TraceData[l]
 Report(ok, exp) == IF ok THEN TRUE ELSE PrintT(<<"MISMATCH", l, exp>>)
 Query == /\ Quiescent
@@ -27,9 +28,10 @@ Query == /\ Quiescent
               [] Ev.e = "upper"    -> Report(UpperBound(Ev.t, Ev.r), ExpUpper(Ev.t))
 TNext == /\ l <= Len(TraceData)
          /\ l' = l + 1
+         /\ tol' = IF Ev.e = "reset" THEN Ev.tol ELSE tol
          /\ CASE Ev.e = "reset" -> S' = {} /\ pend' = [c \in Clients |-> Idle]
               [] Ev.e = "call"  -> Call(Ev.c, Ev.t)
-              [] Ev.e = "ret"   -> IF Tolerant /\ ~RetPossible(Ev.c, Ev.ok)
+              [] Ev.e = "ret"   -> IF tol /\ ~RetPossible(Ev.c, Ev.ok)
                                    THEN /\ Report(FALSE, <<"insert must report", pend[Ev.c].t \notin S>>)
                                         /\ S' = S \cup {pend[Ev.c].t} /\ pend' = [pend EXCEPT ![Ev.c] = Idle]
                                    ELSE Ret(Ev.c, Ev.ok)
